@@ -614,7 +614,7 @@ def interleaved_oracle(rng, n):
 
         def other(i, cut=cut, pb=pb):
             if i == cut:
-                mb, _ = G.build(pb)
+                mb, _ = G.build(pb, fixed_ids=False)
                 try:
                     mb.main()
                 except Exception:  # noqa
@@ -622,7 +622,7 @@ def interleaved_oracle(rng, n):
         try:
             ma, _ = G.build(pa, after_step=other)
             ta = G.generate_equations(ma)
-            mref, _ = G.build(pa)
+            mref, _ = G.build(pa, fixed_ids=False)
             tref = G.generate_equations(mref)
         except Exception as e:  # noqa
             fails.append({'key': 'history:interleaved-construction', 'what': 'interleaved construction fails: %r' % (e,),
@@ -643,7 +643,7 @@ def replay_interleaved(r):
 
     def other(i):
         if i == r['cut']:
-            mb, _ = G.build(r['b'])
+            mb, _ = G.build(r['b'], fixed_ids=False)
             try:
                 mb.main()
             except Exception:  # noqa
@@ -651,7 +651,7 @@ def replay_interleaved(r):
     try:
         ma, _ = G.build(r['a'], after_step=other)
         ta = G.generate_equations(ma)
-        mref, _ = G.build(r['a'])
+        mref, _ = G.build(r['a'], fixed_ids=False)
         tref = G.generate_equations(mref)
     except Exception as e:  # noqa
         return ['interleaved construction fails: %r' % (e,)]
